@@ -1,0 +1,31 @@
+//go:build verif
+
+package parser
+
+// Hooks for the verification harness in /verif. Compiled only with `-tags verif`.
+
+// VerifTok is one token as returned by lexer.next().
+type VerifTok struct {
+	Kind int    // numeric value of the token constant
+	Stop int    // lexer position after the token
+	ID   string // identifier text for tkIdentifier
+}
+
+// VerifLex runs the real lexer over s until tkEOF (or len(s)+2 tokens, whichever comes first).
+func VerifLex(s string) []VerifTok {
+	var l lexer
+	l.init(s)
+	var out []VerifTok
+	for i := 0; i < len(s)+2; i++ {
+		t := l.next()
+		id := ""
+		if t == tkIdentifier {
+			id = l.id
+		}
+		out = append(out, VerifTok{int(t), l.p, id})
+		if t == tkEOF {
+			break
+		}
+	}
+	return out
+}
